@@ -120,20 +120,40 @@ func (c *Ctx) ruleSubAckShapeIn(rr *RuleRep, f *ssa.Function, subs ssa.Value, qu
 	nSucc := 0
 	for _, ret := range returnsOf(f) {
 		ev := c.errResult(ret)
-		if ev == nil || !isNilConst(c.Resolve(ev)) {
+		if ev == nil {
 			continue
 		}
-		nSucc++
-		ok := false
-		for _, e := range eqs {
-			if DominatedByEdge(f, ret, e.iff.Block(), e.eqK, PathQ{}) {
-				ok = true
+		// where the nil result comes from: the return itself, or — with a single exit and a result variable — the end of
+		// each block through which nil enters the join
+		var points []ssa.Instruction
+		switch rv := c.Resolve(ev).(type) {
+		case *ssa.Phi:
+			if rv.Parent() != f {
+				continue
+			}
+			for _, lf := range phiLeaves(rv, map[ssa.Value]bool{}) {
+				if lf.Pred != nil && len(lf.Pred.Instrs) > 0 && isNilConst(c.Resolve(lf.V)) {
+					points = append(points, lf.Pred.Instrs[len(lf.Pred.Instrs)-1])
+				}
+			}
+		default:
+			if isNilConst(rv) {
+				points = append(points, ret)
 			}
 		}
-		if ok {
-			rr.OK(pfx+"/count", ret.Pos(), "success return dominated by len(subAck.Codes) == len(subs)")
-		} else {
-			rr.Bad(pfx+"/count", ret.Pos(), "Subscribe can return success without having established that the SUBACK carries exactly one return code per requested filter (no dominating equality of len(Codes) and len(subs))")
+		for _, pt := range points {
+			nSucc++
+			ok := false
+			for _, e := range eqs {
+				if DominatedByEdge(f, pt, e.iff.Block(), e.eqK, PathQ{}) {
+					ok = true
+				}
+			}
+			if ok {
+				rr.OK(pfx+"/count", pt.Pos(), "success return dominated by len(subAck.Codes) == len(subs)")
+			} else {
+				rr.Bad(pfx+"/count", pt.Pos(), "Subscribe can return success without having established that the SUBACK carries exactly one return code per requested filter (no dominating equality of len(Codes) and len(subs))")
+			}
 		}
 	}
 	if nSucc == 0 {
@@ -150,6 +170,12 @@ func (c *Ctx) ruleSubAckShapeIn(rr *RuleRep, f *ssa.Function, subs ssa.Value, qu
 			}
 			n++
 			ev := c.errResult(ret)
+			if phi, isPhi := c.Resolve(ev).(*ssa.Phi); isPhi && phi.Parent() == f {
+				// a result variable: what it holds on the paths through the mismatch edge
+				if vs, reached := valuesAlong(f, ifEdge{e.iff.Block(), e.neqK}, ret, phi, nil); reached && len(vs) == 1 {
+					ev = vs[0]
+				}
+			}
 			call, callee := c.asCall(ev)
 			if call != nil && callee != nil && callee.Pkg == c.Pkg && len(call.Call.Args) > 0 && c.isGlobalLoad(call.Call.Args[0], "ErrInvalidSubAck") {
 				rr.OK(pfx+"/mismatch", ret.Pos(), "count mismatch returns an error whose cause is ErrInvalidSubAck")
